@@ -580,6 +580,245 @@ def PseudoVoid.moveAssign (_tgt src : PseudoVoid) : PseudoVoid := { valid := src
 object it held is deleted, the source becomes null.  Result: (target, source). -/
 def erasedAssign {σ : Type} (_tgt src : Option σ) : Option σ × Option σ := (src, none)
 
+/-! ## Round four — interpreters for what the translator reads from the source
+
+`tools/translators/tr_c19.py` regenerates `Gen/C19.lean` on every run: the guard's three member functions as `Prog`
+terms (no interpreter needed), and the straight-line members of the future classes as lists of micro operations
+(`Micro`), the move operations as lists of members (`Field`).  The functions below give these lists their meaning on the
+states of this model; `Props/C19.lean` proves that the generated lists, so interpreted, are the hand-written step
+functions above — for every state. -/
+
+/-- one statement of a member function of a future class (the translator's statement patterns) -/
+inductive Micro where
+  /-- `if(!valid()) DUNE_THROW(InvalidFutureException, …);` -/
+  | throwIfInvalidCall
+  /-- `if(!valid_) DUNE_THROW(InvalidFutureException, …);` -/
+  | throwIfInvalidFlag
+  /-- `if(!_future) DUNE_THROW(InvalidFutureException, …);` -/
+  | throwIfNull
+  /-- `MPI_Wait(&req_, &status_);` -/
+  | mpiWait
+  /-- `MPI_Test(&req_, &flag, &status_);` (`int flag = -1;` before it) -/
+  | mpiTest
+  /-- `return <local>;` -/
+  | retLocal
+  /-- `wait();` -/
+  | callWait
+  /-- `return data_.get();` -/
+  | retTakeData
+  /-- `return send_data_.get();` -/
+  | retTakeSend
+  /-- `return (bool)data_;` -/
+  | retDataValid
+  /-- `return valid_;` -/
+  | retFlagValid
+  | retTrue
+  | retFalse
+  /-- `valid_ = false;` -/
+  | clearFlag
+  /-- `return std::forward<T>(data_);` -/
+  | retData
+  /-- `T tmp = std::move(*value);` / `T& tmp = *value;` -/
+  | moveOut
+  /-- `value.reset();` -/
+  | reset
+  /-- `return (bool)value;` -/
+  | retHasValue
+  /-- `_future.wait();` as the last statement (FutureModel) -/
+  | fwdWait
+  | fwdReady
+  | fwdValid
+  /-- `return (T)_future.get();` -/
+  | fwdGet
+  /-- `_future->wait();` as the last statement (Future) -/
+  | ptrWait
+  | ptrGet
+  | ptrReady
+  /-- `if(_future) return _future->valid();` -/
+  | ifPtrRetValid
+  deriving DecidableEq, Repr
+
+/-- the data members of `MPIFuture<R,S>` -/
+inductive Field where
+  | req | status | data | sendData
+  deriving DecidableEq, Repr
+
+namespace Interp
+
+/-- `impl::Buffer<T>::get()` / `impl::Buffer<T&>::get()` on the buffer `value` (`none` = empty): `tmp` is the local.
+Result: (returned object, buffer afterwards); `none` = undefined behaviour (empty buffer dereferenced, nothing
+returned, unknown statement). -/
+def bufGet : List Micro → Option (List Int) → Option (List Int) → Option (List Int × Option (List Int))
+  | .moveOut :: r, value, _ => match value with
+      | some v => bufGet r value (some v)
+      | none => none
+  | .reset :: r, _, tmp => bufGet r none tmp
+  | [.retLocal], value, some t => some (t, value)
+  | _, _, _ => none
+
+/-- `impl::Buffer<void>::get()` on `valid_` -/
+def bufVoidGet : List Micro → Bool → Option Bool
+  | [], v => some v
+  | .clearFlag :: r, _ => bufVoidGet r false
+  | _, _ => none
+
+/-- `operator bool` of the value/reference buffers -/
+def bufBool : List Micro → Option (List Int) → Option Bool
+  | [.retHasValue], value => some value.isSome
+  | _, _ => none
+
+def bufVoidBool : List Micro → Bool → Option Bool
+  | [.retFlagValid], v => some v
+  | _, _ => none
+
+/-- `data_` of `MPIFuture<R,S>` seen as a buffer object -/
+def dataBuf (f : MpiFut) : Option (List Int) := if f.valid then some f.buf else none
+
+/-- members of `MPIFuture<R,S>` that call no other member function of the future.  `bget` = body of `Buffer::get`,
+`bbool` = body of its `operator bool`.  `flag` is the local of `ready()`.  Falling off the end of a void function
+answers `ok`. -/
+def futBasic (bget bbool : List Micro) : List Micro → MpiFut2 → Option Bool → Option (FObs × MpiFut2)
+  | [], f, _ => some (.ok, f)
+  | .mpiWait :: r, f, fl => futBasic bget bbool r { f with base := MpiFut.mpiWait f.base } fl
+  | .mpiTest :: r, f, _ =>
+      futBasic bget bbool r { f with base := { f.base with req := (mpiTest f.base.req).2 } } (some (mpiTest f.base.req).1)
+  | [.retLocal], f, some b => some (.bool b, f)
+  | [.retDataValid], f, _ => (bufBool bbool (dataBuf f.base)).map fun b => (.bool b, f)
+  | [.retTakeData], f, _ =>
+      (bufGet bget (dataBuf f.base) none).map fun r => (.data r.1, { f with base := { f.base with valid := r.2.isSome } })
+  | [.retTakeSend], f, _ =>
+      (bufGet bget f.send none).map fun r => (.data r.1, { f with send := r.2 })
+  | _, _, _ => none
+
+/-- all members: `valid()` and `wait()` may be called (`if(!valid()) DUNE_THROW`, `wait();`); an exception thrown by
+`wait()` leaves the caller -/
+def futRun (bget bbool vbody wbody : List Micro) : List Micro → MpiFut2 → Option (FObs × MpiFut2)
+  | .throwIfInvalidCall :: r, f =>
+      match futBasic bget bbool vbody f none with
+      | some (.bool true, f') => futBasic bget bbool r f' none
+      | some (.bool false, f') => some (.errInvalid, f')
+      | _ => none
+  | .callWait :: r, f =>
+      match wbody with
+      | .throwIfInvalidCall :: w =>
+        (match futBasic bget bbool vbody f none with
+         | some (.bool true, f') =>
+           (match futBasic bget bbool w f' none with
+            | some (.ok, f'') => futBasic bget bbool r f'' none
+            | _ => none)
+         | some (.bool false, f') => some (.errInvalid, f')
+         | _ => none)
+      | w =>
+        (match futBasic bget bbool w f none with
+         | some (.ok, f') => futBasic bget bbool r f' none
+         | _ => none)
+  | ops, f => futBasic bget bbool ops f none
+
+/-- `MPIFuture<void>`: the same member functions on `impl::Buffer<void>` -/
+def voidBasic (bget bbool : List Micro) : List Micro → MpiVoid → Option Bool → Option (FObs × MpiVoid)
+  | [], f, _ => some (.ok, f)
+  | .mpiWait :: r, f, fl => voidBasic bget bbool r (MpiVoid.mpiWait f) fl
+  | .mpiTest :: r, f, _ => voidBasic bget bbool r { f with req := (mpiTest f.req).2 } (some (mpiTest f.req).1)
+  | [.retLocal], f, some b => some (.bool b, f)
+  | [.retDataValid], f, _ => (bufVoidBool bbool f.valid).map fun b => (.bool b, f)
+  | [.retTakeData], f, _ => (bufVoidGet bget f.valid).map fun v => (.ok, { f with valid := v })
+  | _, _, _ => none
+
+def voidRun (bget bbool vbody wbody : List Micro) : List Micro → MpiVoid → Option (FObs × MpiVoid)
+  | .throwIfInvalidCall :: r, f =>
+      match voidBasic bget bbool vbody f none with
+      | some (.bool true, f') => voidBasic bget bbool r f' none
+      | some (.bool false, f') => some (.errInvalid, f')
+      | _ => none
+  | .callWait :: r, f =>
+      match wbody with
+      | .throwIfInvalidCall :: w =>
+        (match voidBasic bget bbool vbody f none with
+         | some (.bool true, f') =>
+           (match voidBasic bget bbool w f' none with
+            | some (.ok, f'') => voidBasic bget bbool r f'' none
+            | _ => none)
+         | some (.bool false, f') => some (.errInvalid, f')
+         | _ => none)
+      | w =>
+        (match voidBasic bget bbool w f none with
+         | some (.ok, f') => voidBasic bget bbool r f' none
+         | _ => none)
+  | ops, f => voidBasic bget bbool ops f none
+
+/-- `std::swap(member, f.member)` on (`*this`, `f`); `status_` is not part of the model -/
+def swapField : Field → MpiFut2 × MpiFut2 → MpiFut2 × MpiFut2
+  | .req, (t, s) => ({ t with base := { t.base with req := s.base.req, incoming := s.base.incoming } },
+                     { s with base := { s.base with req := t.base.req, incoming := t.base.incoming } })
+  | .status, p => p
+  | .data, (t, s) => ({ t with base := { t.base with valid := s.base.valid, buf := s.base.buf } },
+                      { s with base := { s.base with valid := t.base.valid, buf := t.base.buf } })
+  | .sendData, (t, s) => ({ t with send := s.send }, { s with send := t.send })
+
+/-- `operator=(MPIFuture&&)` as the list of its swaps -/
+def moveAssignBy (swaps : List Field) (t s : MpiFut2) : MpiFut2 × MpiFut2 :=
+  swaps.foldl (fun p fld => swapField fld p) (t, s)
+
+/-- member initialiser `member(std::move(f.member))` -/
+def initMoved : Field → MpiFut2 → MpiFut2 → MpiFut2
+  | .req, t, s => { t with base := { t.base with req := s.base.req, incoming := s.base.incoming } }
+  | .status, t, _ => t
+  | .data, t, s => { t with base := { t.base with valid := s.base.valid, buf := s.base.buf } }
+  | .sendData, t, s => { t with send := s.send }
+
+/-- an object none of whose members has been initialised from the source (what default initialisation leaves) -/
+def blank : MpiFut2 := { base := { valid := false, req := .null, buf := [], incoming := [] }, send := none }
+
+/-- the move constructor: initialisers, then swaps with the source; the new object -/
+def moveConstructBy (moved nulled swaps : List Field) (s : MpiFut2) : MpiFut2 :=
+  let t0 := moved.foldl (fun t fld => initMoved fld t s) blank
+  let t1 := if nulled.contains .req then { t0 with base := { t0.base with req := .null, incoming := [] } } else t0
+  (moveAssignBy swaps t1 s).1
+
+/-- `PseudoFuture<T>` -/
+def pseudoRun : List Micro → PseudoFut → Option (FObs × PseudoFut)
+  | [], f => some (.ok, f)
+  | .throwIfInvalidFlag :: r, f => if !f.valid then some (.errInvalid, f) else pseudoRun r f
+  | .clearFlag :: r, f => pseudoRun r { f with valid := false }
+  | [.retData], f => some (.data f.data, f)
+  | [.retTrue], f => some (.bool true, f)
+  | [.retFlagValid], f => some (.bool f.valid, f)
+  | _, _ => none
+
+/-- `PseudoFuture<void>` -/
+def pseudoVoidRun : List Micro → PseudoVoid → Option (FObs × PseudoVoid)
+  | [], f => some (.ok, f)
+  | .throwIfInvalidFlag :: r, f => if !f.valid then some (.errInvalid, f) else pseudoVoidRun r f
+  | .clearFlag :: r, f => pseudoVoidRun r { f with valid := false }
+  | [.retTrue], f => some (.bool true, f)
+  | [.retFlagValid], f => some (.bool f.valid, f)
+  | _, _ => none
+
+/-- `Future<T>::FutureModel<F>`: each member is one forwarding statement -/
+def modelRun {σ : Type} (inner : σ → FOp → FObs × σ) : List Micro → σ → Option (FObs × σ)
+  | [.fwdWait], s => some (inner s .wait)
+  | [.fwdReady], s => some (inner s .ready)
+  | [.fwdValid], s => some (inner s .valid)
+  | [.fwdGet], s => some (inner s .get)
+  | _, _ => none
+
+/-- `Future<T>`: null test, then the virtual call (`mw`, `mg`, `mr`, `mv` = bodies of the FutureModel members) -/
+def erasedRun {σ : Type} (inner : σ → FOp → FObs × σ) (mw mg mr mv : List Micro) :
+    List Micro → Option σ → Option (FObs × Option σ)
+  | .throwIfNull :: r, s => match s with
+      | none => some (.errInvalid, none)
+      | some _ => erasedRun inner mw mg mr mv r s
+  | .ifPtrRetValid :: r, s => match s with
+      | some f => (modelRun inner mv f).map fun x => (x.1, some x.2)
+      | none => erasedRun inner mw mg mr mv r s
+  | [.retFalse], s => some (.bool false, s)
+  | [.ptrWait], some f => (modelRun inner mw f).map fun x => (x.1, some x.2)
+  | [.ptrGet], some f => (modelRun inner mg f).map fun x => (x.1, some x.2)
+  | [.ptrReady], some f => (modelRun inner mr f).map fun x => (x.1, some x.2)
+  | _, _ => none
+
+end Interp
+
 /-! ### the collectives whose results the futures deliver (specification level, rank order) -/
 
 inductive Red where
